@@ -125,6 +125,8 @@ var props = map[string]*prop{
 		level: "exploration",
 		jobs: []job{
 			regress,
+			{name: "word-sweep", run: "^TestC15_WordSweep$", shards: [2]int{2, 4}},
+			{name: "word-sweep-untagged", run: "^TestC15_WordSweep$", plain: true, shards: [2]int{2, 4}},
 			{name: "errors-untagged", run: "^TestC15_Errors$", plain: true, checks: [2]int{4000, 60000}},
 			{name: "errors-int32", run: "^TestC15_Errors$", arch: "386", shards: [2]int{2, 4}, checks: [2]int{4000, 60000}},
 			{name: "concurrent", run: "^TestC15_Concurrent$", weight: 8},
@@ -253,6 +255,7 @@ var props = map[string]*prop{
 		level: "exploration", exhaustive: true,
 		jobs: []job{
 			regress,
+			{name: "cold-concurrent", run: "^TestC16_ColdConcurrent$", shards: [2]int{2, 8}, weight: 4},
 			{name: "range-untagged", run: "^TestC16_Range$", plain: true},
 			{name: "range-int32", run: "^TestC16_Range$", arch: "386"},
 			{name: "concurrent", run: "^TestC16_Concurrent$", weight: 8},
